@@ -1,5 +1,6 @@
 """C13 — validator / encoder / database agreement: generated tables, name index, validation hook
 placement (DESIGN.md section 3 / C13)."""
+import re
 from lib import regen, nametables, cfg, core
 from lib.must import Must
 
@@ -19,6 +20,7 @@ def run(chk):
     A = a64common.load(chk)
     a64vec.run(chk, A)
     a64vec.run_db_q(chk)
+    zmask_rule(chk)
     return chk.finish(
         level="other",
         explanation=("(a) the generated signature/name/RW tables regenerate byte-identically from db/; (b) for every instruction id of both "
@@ -152,3 +154,48 @@ def vm_flags_rule(chk):
                                                                                                  want[which[0]] if len(which) == 1 else 0),
                    key="vmflags|%s" % (which[0] if which else "?"))
     chk.floor(R + ":sites", nsite, 3)
+
+
+def zmask_rule(chk):
+    R = "R-ZMASK-REG-DEST"
+    chk.rule(R, "x86 validate(): on the path where the {z} option is known to be set, a condition that looks at the kind of operand 0 "
+                "(is_mem / is_reg / op_type) is evaluated and its memory edge leaves with an error: zeroing-masking with a memory destination "
+                "(EVEX.z = 1, mod != 11) is #UD")
+    unit = "asmjit/x86/x86instapi.cpp"
+    f = chk.facts(unit, funcs=r"asmjit::x86::InstInternal::validate$|asmjit::x86::[A-Za-z_]*validate[A-Za-z_]*$")
+    n = 0
+    for fn in cfg.load_functions(f):
+        ztests = [i for i, x in fn.calls(lambda x: x.get("cn") == "test" and x.get("args")) if "kX86_ZMask" in fn.text(x["args"][-1]) and "|" not in fn.text(x["args"][-1])]
+        if not ztests:
+            continue
+
+        def edge_fx(b, si, atom, holds, fn=fn):
+            x = fn.e(atom)
+            if x and x["k"] == "call" and x.get("cn") == "test" and holds and x.get("args") and "kX86_ZMask" in fn.text(x["args"][-1]) and "|" not in fn.text(x["args"][-1]):
+                return [("z",)]
+            return ()
+        m = Must(fn, None, edge_fx)
+        found = []
+        for b in fn.blocks.values():
+            t = b.get("term")
+            if not (t and t.get("cond") and len(b["succs"]) == 2):
+                continue
+            txt = "".join(fn.text(t["cond"]).split())
+            if not (re.search(r"operands\[0\]\.(is_mem|is_reg|op_type)\(\)", txt)):
+                continue
+            last = [el for el in b["elems"] if isinstance(el, int)]
+            st = (m.before(last[-1]) if last else None) or frozenset()
+            if ("z",) not in st:
+                continue
+            # one edge must reach an error return without passing a success return
+            for s in b["succs"]:
+                if s is None:
+                    continue
+                rets = [r for bb, idx, r in fn.return_sites() if bb == s]
+                if rets and all("make_error" in fn.text(r) for r in rets):
+                    found.append(t["cond"])
+        n += 1
+        chk.ob(R, "%s|zmask" % fn.name.replace("asmjit::", ""), bool(found), loc="%s:%d" % (unit, fn.line_of(ztests[0])),
+               detail="validate() accepts the {z} option without looking at the kind of the destination operand: `vmovups [rax]{k1}{z}, zmm1` passes",
+               key="zmask|regdest")
+    chk.floor(R + ":validators", n, 1)
